@@ -1,4 +1,5 @@
 import StunVerif.Props.C19
+import StunVerif.Props.SrcFnDecode
 #print axioms StunVerif.C19.rfc_layout
 #print axioms StunVerif.C19.decode_encode
 #print axioms StunVerif.C19.refuse_iff
@@ -8,3 +9,12 @@ import StunVerif.Props.C19
 #print axioms StunVerif.C19.tid_mask
 #print axioms StunVerif.C19.tid_fits
 #print axioms StunVerif.C19.constants
+#print axioms StunVerif.SrcFnDecode.src_rawFromBytes
+#print axioms StunVerif.SrcFnDecode.src_msgTypeFromBytes
+#print axioms StunVerif.SrcFnDecode.foldl_be
+#print axioms StunVerif.SrcFnDecode.beNat_append
+#print axioms StunVerif.SrcFnDecode.pow_256_12
+#print axioms StunVerif.SrcFnDecode.pow_256_4
+#print axioms StunVerif.SrcFnDecode.cookie_iff
+#print axioms StunVerif.SrcFnDecode.len_field
+#print axioms StunVerif.SrcFnDecode.src_headerFromBytes
